@@ -1,19 +1,28 @@
 """C09 - names resolve lexically; consistent renaming changes nothing.
 
 SyltScope (TLA+) states Sylt's lexical scoping as a scope-stack machine (enter/exit of functions, blocks, if/elif/else
-bodies, case arms, loop bodies; declare; use -> innermost match, else module global, else unresolved) and defines
-  * 12 binder skeletons (<= 6 renamable binders: parameters, block-/branch-/loop-locals, case bindings, nested and
-    recursive functions, module globals) with SLOTS at every interesting position,
-  * Resolve / Legal(naming) by running the machine, AllDistinct, MaxShadow, all namings over a pool of 2 (quick) or 3
-    (thorough) names, every single-pair merge,
-  * for every (binder, slot) pair whether the binder is visible there and, if not, the position class.
+bodies, case arms, loop bodies; declare; use -> innermost match, else a global of the current module or std, else
+unresolved; `m.x` -> the globals of module m; the entry is an implicit use of `start` at the main module's top level) and
+defines
+  * 17 binder skeletons (<= 6 renamable binders: parameters, block-/branch-/loop-locals, case bindings, nested and
+    recursive functions, module globals; scopes inside GLOBAL INITIALISERS that are not function literals: if / case
+    bodies, a block, a loop, function literals in a list / tuple / blob literal; a TWO-FILE program) with SLOTS at every
+    interesting position,
+  * Resolve / Legal(naming) by running the machine; the namings: all maps into a pool of 2 (quick) or 3 (thorough) names,
+    AllDistinct, MaxShadow, every single-pair merge, and every binder under every ROLE NAME (`start`, `print`, `list`,
+    `len`, the type `E`) - type, std and namespace names are binders with a fixed name, so legality is decided by the machine,
+  * for every (binder, slot) pair whether the binder is visible there and, if not, the position class; the use is planted in
+    17 SYNTACTIC POSITIONS (argument, `ret f(v)`, `ret v`, condition, loop condition, callee, operand, negation, `<=>`,
+    tuple / list / blob-field element, index base, field base, assignment target and value, case scrutinee) and in
+    expression slots (initialiser, elif and loop condition), in void and value-returning functions and at module level.
 MC_Scope runs the machine action by action over skeleton x naming (spec-level invariants and ASSUMEs: exit 2 when one
-fails) and emits the cases; for SyltGen's pairwise-nesting programs (obtained from MC_Annot, as C08 does) it computes a
+fails) and emits the cases; for SyltGen's pairwise-nesting programs (MC_ScopeGen: the universe of C01/C08) it computes a
 heavily shadowing naming and asserts its legality with the machine.  The harness renders (the printer's `naming` knob),
 compiles and records; Trace_Scope re-derives the universe, asserts coverage and decides per record:
-  (a) nam: all legal namings of a skeleton are accepted with one and the same Lua digest,
-  (b) oos: a use planted where its binder is visible is accepted; elsewhere it is rejected (non-empty error list,
-      nothing written, not by the parser),
+  (a) nam: all legal namings of a skeleton are accepted with one and the same Lua digest (when the all-distinct program is
+      rejected but a renaming is accepted: renaming-changes-verdict),
+  (b) oos: a use planted where its binder is visible (in a well-typed position) is accepted; elsewhere it is rejected
+      (non-empty error list, nothing written, not by the parser),
   (c) gen: all-distinct vs shadowing rendering of a generated program: both accepted, same digest.
 """
 import json
@@ -24,7 +33,7 @@ import vlib
 PID = "C09"
 GENERATOR_WHYS = ("base-rejected", "rejected-by-parser")
 MACHINE_ACTIONS = ("EnterFn", "ExitFn", "EnterBlock", "ExitBlock", "EnterBranch", "ExitBranch", "EnterArm", "ExitArm",
-                   "EnterLoopBody", "ExitLoopBody", "Declare", "Use", "Finish")
+                   "EnterLoopBody", "ExitLoopBody", "Declare", "Use", "QualifiedUse", "EnterModule", "EnterTop", "Finish", "CheckPlanted")
 
 
 def dedupe(records, key):
@@ -40,9 +49,11 @@ def signature(rej, case):
     t = rej["t"]
     if t == "oos":
         kind = rej["bk"]
-        if rej["cls"] not in ("after-" + rej["own"], "before-" + rej["own"], "before-decl"):
+        if rej["cls"] not in ("after-" + rej["own"], "before-" + rej["own"], "before-decl", "other-module"):
             kind += "@" + rej["own"]          # the binder's own frame is nested inside the separating frame
-        return ["C09|%s|%s|%s" % (rej["why"], rej["cls"], kind)]
+        if rej.get("ginit"):
+            kind += "+ginit"                  # declared in a scope that sits directly in a global's initialiser
+        return ["C09|%s|%s|%s|%s" % (rej["why"], rej["cls"], kind, rej["form"])]
     if t == "nam":
         if rej.get("pairs"):
             return ["C09|%s|%s" % (rej["why"], d) for d in sorted(rej["pairs"])]
@@ -105,7 +116,7 @@ def run(ctx):
                 vlib.tool_error("vacuity: action %s of the scope machine never fired" % a)
         skels = {p["sk"]: p for p in dedupe(r.records, lambda p: (p["t"], p["sk"])) if p["t"] == "skel"}
         nams = [p for p in dedupe(r.records, lambda p: (p["t"], p["sk"], tuple(p.get("nm", [])))) if p["t"] == "nam"]
-        ooss = [p for p in dedupe(r.records, lambda p: (p["t"], p["sk"], p.get("b"), p.get("slot"))) if p["t"] == "oos"]
+        ooss = [p for p in dedupe(r.records, lambda p: (p["t"], p["sk"], p.get("b"), p.get("slot"), p.get("form"))) if p["t"] == "oos"]
         if r.coverage["Finish"][1] < len(nams):
             vlib.tool_error("vacuity: %d namings emitted but Finish fired %s times" % (len(nams), r.coverage["Finish"]))
         legal = {}
@@ -115,29 +126,33 @@ def run(ctx):
         nlegal = sum(len(v) for v in legal.values())
         nshadowing = sum(1 for v in legal.values() for p in v if len(set(p["nm"])) < len(p["nm"]))
         n_oos = sum(1 for p in ooss if not p["inscope"])
-        if len(skels) < 10 or any(len(legal.get(sk, [])) < 3 for sk in skels):
+        if len(skels) < 17 or any(len(legal.get(sk, [])) < 3 for sk in skels):
             vlib.tool_error("vacuity: a skeleton has fewer than 3 legal namings")
-        if nlegal < (100 if tier == "quick" else 600) or n_oos < 100 or len(ooss) - n_oos < 60:
+        nspecial = sum(1 for v_ in legal.values() for p in v_ if "special" in p["tags"])
+        if nlegal < (400 if tier == "quick" else 1200) or n_oos < 2500 or len(ooss) - n_oos < 1200 or nspecial < 200:
             vlib.tool_error("vacuity: %d legal namings, %d out-of-scope and %d in-scope planted uses" % (nlegal, n_oos, len(ooss) - n_oos))
         cases = []
         for sk in sorted(skels):
             ns = sorted(legal[sk], key=lambda p: (0 if "distinct" in p["tags"] else 1, p["nm"]))
             cases.append({"t": "nam", "sk": sk, "name": skels[sk]["name"], "tops": skels[sk]["tops"],
                           "namings": [{"nm": n["nm"], "names": n["names"]} for n in ns]})
-        for p in sorted(ooss, key=lambda p: (p["sk"], p["b"], p["slot"])):
+        for p in sorted(ooss, key=lambda p: (p["sk"], p["b"], p["slot"], p["form"])):
             names = [n for n in legal[p["sk"]] if "distinct" in n["tags"]][0]["names"]
-            cases.append({"t": "oos", "sk": p["sk"], "b": p["b"], "slot": p["slot"], "tops": p["tops"], "names": names})
+            cases.append({"t": "oos", "sk": p["sk"], "b": p["b"], "slot": p["slot"], "form": p["form"], "tops": p["tops"], "names": names})
         ev.set(states=r.distinct, transitions=r.generated, skeletons=len(skels), namings_tried=len(nams), legal_namings=nlegal,
-               legal_namings_with_shadowing=nshadowing, planted_out_of_scope=n_oos, planted_in_scope=len(ooss) - n_oos,
+               legal_namings_with_shadowing=nshadowing, legal_namings_with_role_name=nspecial,
+               planted_forms=sorted({p["form"] for p in ooss}), planted_out_of_scope=n_oos, planted_in_scope=len(ooss) - n_oos,
                position_classes=sorted({p["cls"] for p in ooss}), machine_action_counts={a: r.coverage[a][1] for a in MACHINE_ACTIONS},
                spec_assumptions_checked=["SkeletonsWellFormed", "AllDistinctLegal", "MaxShadowLegal", "NamesOnlyCompared",
-                                         "OutOfScopeUnresolved", "EveryBinderHasBase", "ClassesCovered",
+                                         "OutOfScopeUnresolved", "EveryBinderHasBase", "ClassesCovered", "FormsCovered", "SpecialCovered",
                                          "StackOk", "NoStuck", "DoneOk", "TraceComplete"])
 
-        # 2. SyltGen's pairwise-nesting programs (from MC_Annot, as C08) and their shadowing naming
-        ra = vlib.tlc("MC_Annot", wd=wd, env={"MODE": "emit", "MAXEXH": 6}, workers=8, timeout=1800, xmx="12g",
-                      out_file=os.path.join(wd, "tlc-programs.out"))
-        vlib.require_tlc_ok(ra, "MC_Annot emit (program universe)")
+        # 2. SyltGen's pairwise-nesting programs (same universe as MC_Annot / MC_Sem emit; quick: a seeded 1-in-20 sample
+        #    of the (outer, position, inner) triples, in all their fillings and harness contexts) and their shadowing naming
+        keep = 20 if tier == "quick" else 1
+        ra = vlib.tlc("MC_ScopeGen", wd=wd, env={"KEEP": keep, "SEED": ctx.seed % 1000}, workers=8, timeout=1800, xmx="12g",
+                      coverage=False, out_file=os.path.join(wd, "tlc-programs.out"))
+        vlib.require_tlc_ok(ra, "MC_ScopeGen (program universe)")
         seen = set()
         programs = []
         for (_, c) in ra.records:
@@ -145,10 +160,8 @@ def run(ctx):
             if h not in seen:
                 seen.add(h)
                 programs.append({"id": c["id"], "tops": c["tops"]})
-        universe = len(programs)
-        if tier == "quick":
-            programs = random.Random(ctx.seed).sample(programs, min(len(programs), 500))
-        if len(programs) < 400:
+        universe = len(programs) * keep
+        if len(programs) < (300 if tier == "quick" else 15000):
             vlib.tool_error("vacuity: only %d generated programs" % len(programs))
         gen_file = os.path.join(wd, "gen-programs.ndjson")
         vlib.write_ndjson(gen_file, programs)
@@ -164,7 +177,7 @@ def run(ctx):
             cases.append({"t": "gen", "rec": i + 1, "id": p["id"], "tops": p["tops"], "shadow": gens[i + 1]["shadow"]})
         ev.add("states", ra.distinct + rg.distinct)
         ev.add("transitions", ra.generated + rg.generated)
-        ev.set(universe_programs=universe, generated_programs=len(programs),
+        ev.set(universe_programs_approx=universe, generated_programs=len(programs),
                names_per_program=[min(g["ncolours"] for g in gens.values()), max(g["ncolours"] for g in gens.values())],
                binders_per_program=[min(g["nbinders"] for g in gens.values()), max(g["nbinders"] for g in gens.values())])
 
@@ -183,12 +196,12 @@ def run(ctx):
             generator_problems.append((rej, rec))
             continue
         if rej["t"] == "oos":
-            what = "a use of binder %d (%s of a %s frame) planted %s in skeleton '%s' (slot %d): %s %s" % (
-                rej["b"], rej["bk"], rej["own"], rej["cls"], rej["name"], rej["slot"], rej["why"], rec.get("detail", "")[:120])
+            what = "a use of binder %d (%s of a %s frame) planted %s as %s in skeleton '%s' (slot %d): %s %s" % (
+                rej["b"], rej["bk"], rej["own"], rej["cls"], rej["form"], rej["name"], rej["slot"], rej["why"], rec.get("detail", "")[:120])
             replay = {"case": case, "pool": pool, "observed": {k: rec[k] for k in ("class", "bytes", "stage", "detail")}, "src": rec.get("src"),
                       "context": [c for c in cases if c["t"] == "nam" and c["sk"] == case["sk"]]}
         elif rej["t"] == "nam":
-            what = "skeleton '%s': %d of %d legal namings %s (single merged pairs that fail: %s)" % (
+            what = "skeleton '%s': %d of %d legal namings %s (single merged pairs / role names that tell: %s)" % (
                 rej["name"], rej["nbad"], rej["nlegal"], rej["why"], ", ".join(sorted(rej.get("pairs", []))) or "none")
             replay = {"case": case, "pool": pool, "bad_variants": rej["bad"][:20], "sources": rec.get("sources")}
         else:
@@ -201,7 +214,8 @@ def run(ctx):
     for (rej, rec) in generator_problems[:10]:
         print("NOTE generator: %s %s" % (rej["why"], json.dumps({k: rej[k] for k in rej if k in ("t", "sk", "name", "b", "slot", "id")}, sort_keys=True)))
     nskel_problems = sum(1 for (rj, _) in generator_problems if rj["t"] != "gen")
-    if nskel_problems or len(generator_problems) * 20 > len(recs):
+    # a rejected base says nothing about the property; but it must not hide verdicts reached on other cases
+    if not verdicts.violations and (nskel_problems or len(generator_problems) * 20 > len(recs)):
         vlib.tool_error("vacuity: %d cases say nothing about the property (base program rejected / variant stopped by the parser), "
                         "%d of them skeleton cases" % (len(generator_problems), nskel_problems))
 
@@ -216,7 +230,7 @@ def run(ctx):
         srecs = record(wd, "neg-salt", sub, env={"C09_STUB": "salt"})
         sv, srej = validate(wd, "neg-salt", srecs, pool, gen_file, full=False, workers=4)
         vlib.require_tlc_ok(sv, "negative control (salted digests)")
-        if len(srej) != len(sub) or any(x["why"] not in ("renaming-changes-output", "renaming-rejected") for x in srej):
+        if len(srej) != len(sub):
             vlib.tool_error("negative control accepted: only %d of %d records with a perturbed digest were rejected" % (len(srej), len(sub)))
         # (ii) a compiler that accepts every planted use: every out-of-scope pair must be rejected
         arecs = record(wd, "neg-accept", oos_cases, env={"C09_STUB": "accept"})
@@ -233,6 +247,7 @@ def run(ctx):
         renamed = json.loads(json.dumps(recs[first_gen]))
         renamed["shadow"][-1]["n"] = "zz"
         foreign = json.loads(json.dumps(next(x for x in recs if x["t"] == "oos")))
+        foreign["form"] = "callee" if foreign["form"] != "callee" else "scrutinee"
         foreign["slot"] = 19
         corrupt = {"naming-dropped": [dropped], "other-naming-used": [renamed], "not-a-pair": [foreign],
                    "record-missing": recs[:first_gen][1:]}
@@ -249,30 +264,34 @@ def run(ctx):
     oos_recs = [x for x in recs if x["t"] == "oos"]
     gen_recs = [x for x in recs if x["t"] == "gen"]
     compiles = sum(len(x["results"]) for x in nam_recs) + len(oos_recs) + 2 * len(gen_recs)
-    nontrivial = (nshadowing + ev.cov.get("planted_out_of_scope", 0) + len(gen_recs)) if not ctx.replay else len(recs)
+    nontrivial = (nshadowing + ev.cov.get("legal_namings_with_role_name", 0) + ev.cov.get("planted_out_of_scope", 0) + len(gen_recs)) if not ctx.replay else len(recs)
     samples = []
     for x in (nam_recs[:1] + oos_recs[:1] + gen_recs[:1]):
         if x["t"] == "nam":
             samples.append({"t": "nam", "sk": x["sk"], "namings": [r_["nm"] for r_ in x["results"]][:8],
                             "digests": sorted({r_["digest"] for r_ in x["results"]})})
         elif x["t"] == "oos":
-            samples.append({k: x[k] for k in ("t", "sk", "b", "slot", "class", "bytes", "src")})
+            samples.append({k: x[k] for k in ("t", "sk", "b", "slot", "form", "class", "bytes", "src")})
         else:
             samples.append({"t": "gen", "id": x["id"], "shadow": x["shadow"][:12], "distinct": x["distinct"]["digest"],
                             "shadowed": x["shadowed"]["digest"]})
     ev.set(traces_validated_against_impl=len(recs), programs=compiles, evaluations=compiles, distinct_nontrivial=nontrivial,
            records={"nam": len(nam_recs), "oos": len(oos_recs), "gen": len(gen_recs)}, rejects=len(rejects), pool=pool,
            rejected_by_compiler=len(generator_problems), exhaustive=(tier == "thorough" and not ctx.replay),
-           rule="12 binder skeletons (SyltScope!Skel) x {every map of the <= 6 binders into a pool of %d names, all-distinct, max-shadow, "
-                "every single pair merged}, legality decided by the scope machine, every legal naming compiled; every (binder, slot) pair of "
-                "every skeleton as a planted use (in scope: must be accepted; out of scope: must be rejected); %s programs of SyltGen's "
-                "pairwise-nesting universe rendered all-distinct and with the specification's greedy shadowing naming. Non-trivial and "
-                "distinct: legal namings that really share a name between two binders + out-of-scope planted uses + generated programs "
-                "(each shares names: <= half as many names as binders), counted by case id" % (pool, "all" if tier == "thorough" else "500 sampled"),
+           rule="17 binder skeletons (SyltScope!Skel, incl. scopes in non-function global initialisers and a two-file program) x {every "
+                "map of the <= 6 binders into a pool of %d names, all-distinct, max-shadow, every single pair merged, every binder under each "
+                "of 5 role names (start, print, list, len, E)}, legality decided by the scope machine, every legal naming compiled; every "
+                "(binder, slot, syntactic position) triple of every skeleton as a planted use (in scope and well typed: must be accepted; "
+                "out of scope: must be rejected, in all 17 positions); %s programs of SyltGen's pairwise-nesting universe rendered "
+                "all-distinct and with the specification's greedy shadowing naming. Non-trivial and distinct: legal namings that really "
+                "share a name between two binders or carry a role name + out-of-scope planted uses + generated programs (each shares "
+                "names: <= half as many names as binders), counted by case id" % (pool, "all" if tier == "thorough" else "a seeded 1-in-20 sample of the"),
            samples=samples, known_findings_hit=verdicts.known_hits)
     ev.assume("same-frame redeclaration (`a := 1` twice in one block, a local named like a parameter of its function) is left out of the "
               "legal namings: the property does not say which declaration wins",
-              "type, field, variant and std names are not renamed; `start` keeps its name; namespaces (`use`) are outside the universe",
+              "type, field, variant and std names are not renamed themselves (variables may take their names); `start` keeps its name; "
+              "`self` is a reserved word and a case binding must start with a lower-case letter (grammar), so these are not offered as names; "
+              "a local hiding a namespace name (K4) is not a legal naming and therefore not tried",
               "the printer renders binder ids through the `naming` map faithfully (a wrong rendering shows up as a rejected base program: exit 2)",
               "FNV digest of the emitted Lua text stands for byte identity")
     rc = verdicts.finish()
